@@ -7,4 +7,5 @@ def specs_direct(tier):
     s = [(DR, "unit_grouped_greens_functions", {"nsub": n, "conjugate": c, "timeout_ms": t}) for n, c in ((1, False), (1, True), (2, True), (3, False))]
     s += [(DR, "unit_direct_solve", {"nsub": n, "nonhermitian": nh, "timeout_ms": t}) for n, nh in ((1, False), (1, True), (2, True), (3, False))]
     s += [("contracts.kpm", "unit_greens_function", {"timeout_ms": t})]
+    s += [("contracts.kpm", "unit_solve_sylvester_KPM", {"nsub": n, "with_aux": a, "timeout_ms": t}) for n, a in ((1, False), (1, True), (2, True))]
     return s
